@@ -64,6 +64,11 @@ func VerifC20Path(dir string, key, spelling int) CurrPath {
 	} else {
 		base += ".txt"
 	}
+	if key >= 5 && key < 8 {
+		// round 5: files 5, 6, 7 are sub/f0.mk, sub/f1.mk, sub/f2.mk: the same base
+		// names as files 0, 1, 2 in another directory (different files, different keys)
+		base = "sub/f" + strconv.Itoa(key-5) + ".mk"
+	}
 	switch spelling {
 	case 1:
 		return NewCurrPathString(dir + "/sub/../" + base)
